@@ -8,6 +8,7 @@
      bg    {i}                                  an upload completed after the return
      op    {op: fetch|stat|enum, ..., res, list}  reads
      op    {op: fetchf, b, down, res}             fetch while the read replicas in `down` fail every call (gate faults)
+     op    {op: statf, bs, down, res, list} / {op: enumf, after, limit, down, res, list}   likewise for stat / enumerate
    The upload outcomes are not given at `start`: TLC infers them (RecvStart chooses, `done` lines prune).
    The C12 invariants are evaluated in every state of every recorded execution. *)
 EXTENDS Replica, TLC, Json, IOUtils
@@ -52,8 +53,13 @@ TOp == /\ IsEv("op")
             [] Ev.op = "fetchf" -> FetchF(Ev.b, SeqSet(Ev.down) \cap Rd)
             [] Ev.op = "stat"  -> Stat(SeqSet(Ev.bs))
             [] Ev.op = "enum"  -> Enumerate(Ev.after, Ev.limit)
-       /\ reply'.res = Ev.res
+            [] Ev.op = "statf" -> StatF(SeqSet(Ev.bs), SeqSet(Ev.down) \cap Rd)
+            [] Ev.op = "enumf" -> EnumF(Ev.after, Ev.limit, SeqSet(Ev.down) \cap Rd)
+       /\ (Ev.op \in {"fetch", "fetchf", "stat", "enum"} => reply'.res = Ev.res)
        /\ (Ev.op \in {"stat", "enum"} => reply'.list = Ranks(Ev.list))
+       \* under loss the property accepts the complete answer or a failure (whichever the code chose)
+       /\ (Ev.op = "statf" => StatAnswerOK(SeqSet(Ev.bs), SeqSet(Ev.down) \cap Rd, Ev.res, Ranks(Ev.list)))
+       /\ (Ev.op = "enumf" => EnumAnswerOK(Ev.after, Ev.limit, SeqSet(Ev.down) \cap Rd, Ev.res, Ranks(Ev.list)))
 
 TNext == TCfg \/ TStart \/ TDone \/ TRet \/ TBg \/ TOp \/ TRmStart \/ TRmDone \/ TRmRet
 TSpec == TInit /\ [][TNext]_tvars
